@@ -50,8 +50,11 @@ def workdir(name, clean=True):
 
 
 def harness(args, timeout=900, check=True):
-    p = subprocess.run([BIN] + [str(a) for a in args], stdout=subprocess.PIPE, stderr=subprocess.PIPE,
-                       text=True, timeout=timeout)
+    try:
+        p = subprocess.run([BIN] + [str(a) for a in args], stdout=subprocess.PIPE, stderr=subprocess.PIPE,
+                           text=True, timeout=timeout)
+    except subprocess.TimeoutExpired:
+        raise ToolError("harness %s did not finish within %s s" % (args[:6], timeout))
     if check and p.returncode != 0:
         raise ToolError("harness %s failed rc=%s: %s" % (args[:3], p.returncode, p.stderr[-2000:]))
     out = p.stdout.strip().splitlines()
